@@ -418,7 +418,12 @@ messageTypeSwitching:
 func (m *MTProto) tryToProcessErr(e *ErrResponseCode) error {
 	switch e.Message {
 	case "PHONE_MIGRATE_X":
-		newIP, found := m.dclist[e.AdditionalInfo.(int)]
+		dcID, ok := e.AdditionalInfo.(int)
+		if !ok {
+			// the server text carried no usable data center number (e.g. the literal "PHONE_MIGRATE_X")
+			return e
+		}
+		newIP, found := m.dclist[dcID]
 		if !found {
 			return errors.Wrapf(e, "DC with id %v not found", e.AdditionalInfo)
 		}
